@@ -40,7 +40,8 @@ Schema ==
         tags |-> TL],
        [name |-> "Group", annos |-> NoA, parents |-> <<>>, shape |-> <<Attr("n", TL, FALSE)>>, tags |-> None],
        [name |-> "Doc", annos |-> NoA, parents |-> <<>>,
-        shape |-> << Attr("owner", TEnt("User"), FALSE), Attr("labels", TSetOf(TS), FALSE), Attr("opt", TS, TRUE) >>, tags |-> TS] >>,
+        shape |-> << Attr("owner", TEnt("User"), FALSE), Attr("labels", TSetOf(TS), FALSE), Attr("opt", TS, TRUE),
+                     Attr("r2", TRec(<<Attr("x", TL, TRUE), Attr("y", TS, TRUE)>>), FALSE) >>, tags |-> TS] >>,
      actions |-> <<
        [name |-> "view", annos |-> NoA, parents |-> <<>>,
         applies |-> [t |-> "some", principals |-> <<Ref("User")>>, resources |-> <<Ref("Doc")>>,
@@ -63,9 +64,10 @@ UAttrs(full) ==
 U1 == [uid |-> E("User", "u1"), parents |-> <<E("Group", "g1")>>, attrs |-> UAttrs(TRUE), tags |-> << <<<<116, 49>>, VInt(1)>> >>]
 U2 == [uid |-> E("User", "u2"), parents |-> <<>>, attrs |-> UAttrs(FALSE), tags |-> <<>>]
 G1 == [uid |-> E("Group", "g1"), parents |-> <<>>, attrs |-> [n |-> VInt(1)], tags |-> <<>>]
-D1 == [uid |-> E("Doc", "d1"), parents |-> <<>>, attrs |-> [owner |-> E("User", "u1"), labels |-> [k |-> "set", els |-> <<VStr(<<108>>)>>], opt |-> VStr(<<111>>)],
+D1 == [uid |-> E("Doc", "d1"), parents |-> <<>>, attrs |-> [owner |-> E("User", "u1"), labels |-> [k |-> "set", els |-> <<VStr(<<108>>)>>], opt |-> VStr(<<111>>),
+                                                               r2 |-> [k |-> "rec", f |-> [x |-> VInt(1), y |-> VStr(<<121>>)]]],
        tags |-> << <<<<116, 49>>, VStr(<<120>>)>> >>]
-D2 == [uid |-> E("Doc", "d2"), parents |-> <<>>, attrs |-> [owner |-> E("User", "ghost"), labels |-> [k |-> "set", els |-> <<>>]], tags |-> <<>>]
+D2 == [uid |-> E("Doc", "d2"), parents |-> <<>>, attrs |-> [owner |-> E("User", "ghost"), labels |-> [k |-> "set", els |-> <<>>], r2 |-> EmptyRec], tags |-> <<>>]
 AView == [uid |-> E("Action", "view"), parents |-> <<>>, attrs |-> <<>>, tags |-> <<>>]
 AEdit == [uid |-> E("Action", "edit"), parents |-> <<E("Action", "all")>>, attrs |-> <<>>, tags |-> <<>>]
 AAll == [uid |-> E("Action", "all"), parents |-> <<>>, attrs |-> <<>>, tags |-> <<>>]
@@ -132,22 +134,44 @@ Guarded ==
      Ext("nosuch", <<V(VInt(1))>>), Ext("isIpv4", <<>>), Ext("isIpv4", <<Acc(P, "ip"), Acc(P, "ip")>>) >>
 
 Sel == <<1, 5, 7, 28, 29, 30, 31, 32, 33>>
+\* every guard shape x every position of the guarded use: optional attribute and tag
+IsF == [op |-> "is", a |-> R, ty |-> "User"]      \* constant false under action == view (the resource is a Doc)
+IsT == [op |-> "is", a |-> R, ty |-> "Doc"]       \* constant true there
+GuardShapes(g) == << g, Un("not", g), Bin("and", g, IsF), Bin("and", IsF, g), Bin("or", g, IsF), Bin("or", IsF, g), Bin("and", g, IsT), Bin("and", IsT, g),
+                     Bin("or", g, IsT), Un("not", Un("not", g)), Bin("and", g, Has(P, "mgr")), Bin("or", g, Has(P, "mgr")), Bin("and", Un("not", g), IsT) >>
+Uses(g, use) == << [op |-> "if", c |-> g, t |-> use, e |-> V(VTrue)], [op |-> "if", c |-> g, t |-> V(VTrue), e |-> use], Bin("and", g, use), Bin("or", g, use),
+                   Bin("and", use, g), Bin("eq", [op |-> "if", c |-> g, t |-> V(VInt(1)), e |-> V(VInt(2))], V(VInt(1))) >>
+GuardMatrix ==
+  LET optUse == Bin("gt", Acc(P, "opt"), V(VInt(1)))  tagUse == Bin("eq", Bin("getTag", P, T1), V(VInt(1)))
+      go == GuardShapes(Has(P, "opt"))  gt == GuardShapes(Bin("hasTag", P, T1)) IN
+  Flat([i \in DOMAIN go |-> Uses(go[i], optUse)]) \o Flat([i \in DOMAIN gt |-> Uses(gt[i], tagUse)])
+\* least upper bounds of records that differ in which attributes are optional, of entity types, of sets
+LubForms ==
+  LET pr == Acc(P, "r")  r2 == Acc(R, "r2")  ite(c, t, e) == [op |-> "if", c |-> c, t |-> t, e |-> e]  fl == Acc(P, "flag") IN
+  << Bin("gt", Acc(ite(fl, pr, r2), "x"), V(VInt(0))), Bin("gt", Acc(ite(fl, r2, pr), "x"), V(VInt(0))),
+     Has(ite(fl, pr, r2), "x"), Bin("eq", Acc(ite(fl, pr, r2), "y"), Str(<<121>>)),
+     Bin("contains", [op |-> "set", els |-> <<pr, r2>>], pr), Bin("contains", [op |-> "set", els |-> <<r2, pr>>], pr),
+     Bin("gt", Acc(ite(fl, [op |-> "rec", kv |-> <<[key |-> "x", val |-> V(VInt(1))]>>], r2), "x"), V(VInt(0))),
+     Bin("gt", Acc(ite(fl, P, Acc(R, "owner")), "age"), V(VInt(0))), Bin("gt", Acc(ite(fl, P, Acc(R, "owner")), "opt"), V(VInt(0))),
+     Bin("eq", Acc(ite(fl, P, R), "opt"), V(VInt(0))), Bin("gt", Acc(ite(fl, P, R), "age"), V(VInt(0))),
+     Bin("and", Has(ite(fl, pr, r2), "x"), Bin("gt", Acc(ite(fl, pr, r2), "x"), V(VInt(0)))) >>
 Conds ==
   Flat(<< [i \in 1..NL |-> Bin("eq", Leaves[i], Leaves[i])],
           Flat([o \in DOMAIN BinOps |-> Flat([i \in 1..NL |-> [j \in 1..NL |-> Bin(BinOps[o], Leaves[i], Leaves[j])]])]),
           Flat([o \in DOMAIN UnOps |-> [i \in 1..NL |-> Un(UnOps[o], Leaves[i])]]),
           Flat([f \in DOMAIN Ext1 |-> [i \in 1..NL |-> Ext(Ext1[f], <<Leaves[i]>>)]]),
           Flat([f \in DOMAIN Ext2 |-> Flat([a \in DOMAIN Sel |-> [b \in DOMAIN Sel |-> Ext(Ext2[f], <<Leaves[Sel[a]], Leaves[Sel[b]]>>)]])]),
-          Guarded >>)
+          GuardMatrix \o LubForms \o Guarded >>)
 
+NSpecial == Len(Guarded) + Len(GuardMatrix) + Len(LubForms)
 ActionScope(k) == CASE k = 1 -> ScopeEq(E("Action", "view")) [] k = 2 -> ScopeAll [] OTHER -> ScopeIn(E("Action", "all"))
 PolicyOf(i) ==
-  [effect |-> "permit", annos |-> <<>>, principal |-> ScopeAll, action |-> ActionScope(IF i > Len(Conds) - Len(Guarded) THEN 1 ELSE IF i % 7 = 0 THEN 2 ELSE IF i % 11 = 0 THEN 3 ELSE 1),
+  [effect |-> "permit", annos |-> <<>>, principal |-> ScopeAll, action |-> ActionScope(IF i > Len(Conds) - NSpecial THEN 1 ELSE IF i % 7 = 0 THEN 2 ELSE IF i % 11 = 0 THEN 3 ELSE 1),
    resource |-> ScopeAll, conds |-> <<[kind |-> "when", body |-> Conds[i]]>>]
 
 VARIABLES idx, done
 vars == <<idx, done>>
-Init == idx \in { i \in DOMAIN Conds : i % Stride = 0 \/ i > Len(Conds) - Len(Guarded) } /\ done = FALSE
+Init == idx \in { i \in DOMAIN Conds : i % Stride = 0 \/ i > Len(Conds) - NSpecial } /\ done = FALSE
 Next == ~done /\ done' = TRUE /\ UNCHANGED idx
 Opts == [format |-> "TXT", charset |-> "UTF-8", openOptions |-> <<"WRITE", "CREATE", "APPEND">>]
 Emit == done => Serialize(ToJson([op |-> "typing", policy |-> PolicyOf(idx)]) \o "\n", "cases.ndjson", Opts).exitValue = 0
